@@ -806,7 +806,7 @@ def reset_store():
 class Deep(Stream):
     name = 'deep'
     header = HEADER
-    case_type = 'tree * option dd * option tree * option tree * option tree'
+    case_type = 'tree * option dd * option tree * option tree * option tree * option tree * option tree'
     check_fn = 'check_deep'
     shard = 8
     rule = ('sliver trees of every containment shape (node>components>services>interfaces>sub-interfaces, '
@@ -908,15 +908,19 @@ class Deep(Stream):
                 imp.delete_all_graphs()
         o['via_graph'] = observing(via_graph)
 
-        def via_disjoint():
-            """the per-graph (disjoint) in-memory backend, in a graph where a node that is not the newest was
-            removed before: the sliver must come back, and what was in the graph must be untouched"""
-            imp = I.NetworkXGraphImporterDisjoint()
-            try:
-                imp.delete_all_graphs()
-            except Exception:
-                pass
-            g = I.NetworkXPropertyGraphDisjoint(graph_id='c02-disjoint', importer=imp)
+        def after_removal(disjoint):
+            """a graph where a node that is not the newest was removed before (on the single store or on the
+            per-graph disjoint store): the sliver must come back, and what was in the graph must be untouched"""
+            if disjoint:
+                imp = I.NetworkXGraphImporterDisjoint()
+                try:
+                    imp.delete_all_graphs()
+                except Exception:
+                    pass
+                g = I.NetworkXPropertyGraphDisjoint(graph_id='c02-disjoint', importer=imp)
+            else:
+                imp = reset_store()
+                g = I.NetworkXPropertyGraph(graph_id='c02-single', importer=imp)
             try:
                 g.add_node(node_id='filler-A', label=G.CLASS_NetworkNode, props={'Name': 'fillerA', 'Type': 'Server'})
                 g.add_node(node_id='filler-B', label=G.CLASS_NetworkNode, props={'Name': 'fillerB', 'Type': 'Server', 'Site': 'S'})
@@ -950,17 +954,22 @@ class Deep(Stream):
                     imp.delete_all_graphs()
                 except Exception:
                     pass
-        o['via_disjoint'] = observing(via_disjoint)
+        o['via_single_rm'] = observing(lambda: after_removal(False))
+        o['via_disjoint'] = observing(lambda: after_removal(True))
         return o
 
     def to_coq(self, case, o):
         if 'build_err' in o:
-            return '(T KLink None [] None None None, None, None, None, None)'
+            return '(T KLink None [] None None None, None, None, None, None, None, None)'
 
         def ot(x, f):
             return 'None' if is_err(x) else '(Some %s)' % f(x)
-        return '(%s, %s, %s, %s, %s)' % (c_tree(o['t']), ot(o['dict'], c_dd), ot(o['via_dict'], c_tree),
-                                         ot(o['via_json'], c_tree), ot(o['via_graph'], c_tree))
+
+        def rm(x):
+            return 'None' if is_err(x) else '(Some %s)' % c_tree(x['back'])
+        return '(%s, %s, %s, %s, %s, %s, %s)' % (c_tree(o['t']), ot(o['dict'], c_dd), ot(o['via_dict'], c_tree),
+                                                 ot(o['via_json'], c_tree), ot(o['via_graph'], c_tree),
+                                                 rm(o['via_single_rm']), rm(o['via_disjoint']))
 
     def oracle(self, case, o):
         if 'build_err' in o:
@@ -984,16 +993,18 @@ class Deep(Stream):
                 sub = []
                 diff_tree(o['via_dict'], r2, 'dict', 'dict(second conversion of the same dictionary):' + case['k'], sub)
                 devs += sub or [(None, 'dict route: the second conversion of the same dictionary differs')]
-        dj = o.get('via_disjoint')
-        if dj is not None:
+        for store, key in (('single store', 'via_single_rm'), ('disjoint store', 'via_disjoint')):
+            dj = o.get(key)
+            if dj is None:
+                continue
             if is_err(dj):
-                devs.append((None, 'disjoint backend, after a removal: writing / rebuilding raised %s %s' % (dj['err'], dj.get('msg', ''))))
+                devs.append((None, '%s, after a removal: writing / rebuilding raised %s %s' % (store, dj['err'], dj.get('msg', ''))))
             else:
                 sub = []
-                diff_tree(o['t'], dj['back'], 'graph', 'disjoint-graph(after a removal):' + case['k'], sub)
+                diff_tree(o['t'], dj['back'], 'graph', '%s(after a removal):%s' % (store, case['k']), sub)
                 devs += sub
                 if dj['frame']:
-                    devs.append((None, 'disjoint backend, after a removal: ' + dj['frame']))
+                    devs.append((None, '%s, after a removal: %s' % (store, dj['frame'])))
         return verdict(devs)
 
     def key(self, case, o):
